@@ -7,6 +7,10 @@ import argparse, json, os, shutil, subprocess, sys, time
 ROOT = os.path.dirname(os.path.dirname(os.path.abspath(__file__)))
 sys.path.insert(0, ROOT)
 from mutations import MUTATIONS  # noqa
+try:
+    from mutations import HARMLESS  # noqa
+except ImportError:
+    HARMLESS = []
 
 SCRATCH = "/scratch/mut"
 
@@ -15,11 +19,12 @@ def sh(cmd, **kw):
     return subprocess.run(cmd, shell=True, capture_output=True, text=True, **kw)
 
 
-def run(engine="verus", only=(), prop=None, quiet=False):
+def run(engine="verus", only=(), prop=None, quiet=False, harmless=False):
+    """harmless=True: run the HARMLESS list instead (behaviour-preserving edits); each must leave the check at exit 0."""
     only = set(only)
     res = []
     os.makedirs(SCRATCH, exist_ok=True)
-    for mu in MUTATIONS:
+    for mu in (HARMLESS if harmless else MUTATIONS):
         if only and mu["id"] not in only:
             continue
         if prop and mu["prop"] != prop:
@@ -52,7 +57,11 @@ def run(engine="verus", only=(), prop=None, quiet=False):
         out = p.stdout
         caught = p.returncode == 1 and "VIOLATION property=%s" % mu["prop"] in out
         named = [l for l in out.splitlines() if l.strip().startswith("failed obligation")]
-        res.append((mu["id"], "CAUGHT" if caught else "MISSED rc=%d" % p.returncode, named[:3], round(time.time() - t0, 1)))
+        if harmless:
+            caught = p.returncode == 0 and "VIOLATION" not in out
+            res.append((mu["id"], "QUIET" if caught else "FALSE-ALARM-OR-UNDECIDED rc=%d" % p.returncode, named[:3], round(time.time() - t0, 1)))
+        else:
+            res.append((mu["id"], "CAUGHT" if caught else "MISSED rc=%d" % p.returncode, named[:3], round(time.time() - t0, 1)))
         if not quiet:
             print(res[-1])
             if not caught:
@@ -70,9 +79,10 @@ def main():
     ap.add_argument("--engine", default="verus")
     ap.add_argument("--only", default="")
     ap.add_argument("--prop", default=None)
+    ap.add_argument("--harmless", action="store_true", help="run the behaviour-preserving edits: each must stay quiet")
     args = ap.parse_args()
-    res = run(args.engine, [x for x in args.only.split(",") if x], args.prop)
-    n_ok = sum(1 for r in res if r[1] == "CAUGHT")
+    res = run(args.engine, [x for x in args.only.split(",") if x], args.prop, harmless=args.harmless)
+    n_ok = sum(1 for r in res if r[1] in ("CAUGHT", "QUIET"))
     n_skip = sum(1 for r in res if r[1].startswith("SKIP"))
     print("mutation self-test: %d/%d caught (%d skipped)" % (n_ok, len(res) - n_skip, n_skip))
     return 0 if n_ok == len(res) - n_skip else 1
